@@ -190,7 +190,8 @@ def replay(run, beh, rng, max_more, report_parse, report_eval, max_finished=10 *
 
 
 # evaluation-level sessions (C13): whatever a line evaluates to, the loop prints it and goes on
-EVAL_LINES = ["error 'boom'", "error 42", "error [1, 2]", "error NULL", "error <<<'a' => 1>>>", "error <*a = 1*>",
+EVAL_LINES = ["error stdout", "error stdin", "error date()", "error //a//", "error <<1>>", "error TRUE", "error 1.5",
+              "error 'boom'", "error 42", "error [1, 2]", "error NULL", "error <<<'a' => 1>>>", "error <*a = 1*>",
               "error fn(x) x", "1 / 0", "nosuch", "[1, 2][5]", "def f(x) error x; f(7)", "def o = <*_str_ = fn(self) 1 / 0*>; o",
               "return 5", "break", "continue", "NULL", "1 + 1", "'text'", "[1, 'a', NULL]", "<<<1 => 2>>>",
               "require nosuchmodule", "def g() g(); 1", ";", "1;", "do error 'x' finally 2 end", "1" + "0" * 400 + " + 1.0",
